@@ -322,6 +322,10 @@ def wl_cms(ctx, rng, case):
     exact = [("0.95", "0.003"), ("0.9", "0.07"), ("0.99", "0.0003"), ("0.5", "0.002"), ("0.999", "0.3"), ("0.875", "0.0007")]
     if case.index == 0:
         todo += [(Decimal(c), Decimal(e)) for c, e in exact] + [(Fraction(c), Fraction(e)) for c, e in exact] + [(float(c), Decimal(e)) for c, e in exact[:3]]
+        # EVERY two-digit confidence (and a few three-digit ones) spelled as a Decimal and as a Fraction
+        for i in list(range(1, 100)) + [985, 995, 999, 876, 751]:
+            text = f"0.{i:02d}" if i < 100 else f"0.{i}"
+            todo += [(Decimal(text), Decimal("0.1")), (Fraction(text), Fraction(1, 10))]
         # confidences as close to 1 as the number types allow (dozens of rows)
         import math as _m
 
